@@ -1056,6 +1056,18 @@ GEN(int) @G(n int) {
 
 // Findings: witnesses of known findings (expected to differ or to be rejected on this tree)
 var Findings = []Template{
+	{Name: "LoopVarPerIteration", Props: []string{"C03"}, Finding: "D17", Src: `
+GEN(int) @G(n int) {
+	var fs []func() int
+	for i := 0; i < n; i++ { // go >= 1.22: every iteration has its own i
+		fs = append(fs, func() int { return i })
+		YIELD(i)
+	}
+	for _, f := range fs {
+		YIELD(f())
+	}
+	RETURN
+}`, Drives: []Drive{gen("int", "@G", "3")}},
 	{Name: "ArrayRangeAliases", Props: []string{"C04"}, Finding: "D4", Src: `
 GEN(int) @G() {
 	a := [3]int{1, 2, 3}
